@@ -12,7 +12,12 @@ Next == Len(doc) < MaxLen /\ \E t \in Alphabet : doc' = Append(doc, t)
 
 \* a doc token as lexer symbols in a target language (each token is followed by a DOC marker)
 Sym(lang, t) ==
-    CASE t \in {"NL", "CRLF"} -> <<"NL">> [] t = "CR" -> <<"CR">> [] t = "BC" -> <<"BC">> [] t = "BO" -> <<"BO">> [] t = "LC" -> <<"LC">>
+    CASE t \in {"NL", "CRLF"} -> <<"NL">> [] t = "CR" -> <<"CR">>
+      \* the conventional ` * ` leader of block comments: SL = a star at the beginning of the text, NLSL = a line break followed by
+      \* a star, NLBC = a line break followed by `*/` (the closing line of a quoted nested comment): a backend that re-uses or
+      \* strips leaders must still not let the `*/` through
+      [] t = "SL" -> <<"X">> [] t = "NLSL" -> <<"NL", "X">> [] t = "NLBC" -> <<"NL", "BC">>
+      [] t = "BC" -> <<"BC">> [] t = "BO" -> <<"BO">> [] t = "LC" -> <<"LC">>
       [] t = "TDQ" -> (IF lang = "python" THEN <<"TDQ">> ELSE <<"DQ", "DQ", "DQ">>)
       [] t = "TSQ" -> (IF lang = "python" THEN <<"TSQ">> ELSE <<"SQ", "SQ", "SQ">>)
       \* runs of 2, 4 and 5 double quotes: a run that is not a multiple of three leaves quotes next to an escaped triple
@@ -26,6 +31,8 @@ Sym(lang, t) ==
 WSym(lang, t) ==
     CASE t \in {"NL", "CRLF", "CR"} /\ lang \in {"kotlin", "swift", "scala", "go"} -> <<"NL", "LC">>      \* (CR: since 8cdcc90)
       [] t = "BC" /\ lang = "typescript" -> <<"X", "BS", "X">>
+      [] t = "NLBC" /\ lang = "typescript" -> <<"NL", "X", "BS", "X">>
+      [] t \in {"NLSL", "NLBC"} /\ lang \in {"kotlin", "swift", "scala", "go"} -> <<"NL", "LC">> \o Tail(Sym(lang, t))
       [] t = "TDQ" /\ lang = "python" -> <<"BS", "DQ", "BS", "DQ", "BS", "DQ">>
       [] t = "QDQ" /\ lang = "python" -> <<"BS", "DQ", "BS", "DQ", "BS", "DQ", "DQ">>
       [] t = "PDQ" /\ lang = "python" -> <<"BS", "DQ", "BS", "DQ", "BS", "DQ", "DQ", "DQ">>
